@@ -28,6 +28,20 @@ class SymNS:
         self.inputs[name] = t
         return t
 
+    def int_input(self, name, dims, high):
+        """symbolic integer-valued input with values in [0, high)"""
+        t = G.sym_input(name, dims, "int64")
+        self.inputs[name] = t
+        return t
+
+    def gather(self, t, axis, idx):
+        n = len(G.PRIM_LOG)
+        ix = [slice(None)] * t.ndim
+        ix[axis] = idx
+        r = G.getitem(t, tuple(ix))
+        del G.PRIM_LOG[n:]
+        return r
+
     # -- index formulas
     def einsum(self, sub, *ops):
         n = len(G.PRIM_LOG)
@@ -132,6 +146,15 @@ class NumNS:
         a = a.astype(dtype)
         self.inputs[name] = a
         return a
+
+    def int_input(self, name, dims, high):
+        shape = [self._c(d) for d in dims]
+        a = self.rng.randint(0, self._c(high), size=shape)
+        self.inputs[name] = a
+        return a
+
+    def gather(self, t, axis, idx):
+        return np.take(t, idx, axis=axis)
 
     def einsum(self, sub, *ops):
         return np.einsum(sub, *ops)
